@@ -11,16 +11,20 @@ import PvModel.Proofs.FDLocal
 import PvModel.Proofs.FD
 namespace Pv
 open State Term
+variable {I : Nat → Prop}
 
 /-! ### the refinement calculus -/
 
 theorem Keeps.refl {st : State} (h : Solved st.σ) : Keeps st st :=
-  ⟨Ext.refl _ h, fun _ hy => .inl hy, fun _ _ _ hd => hd⟩
+  ⟨Ext.refl _ h, fun _ hy => .inl hy, fun _ _ _ hd => hd, fun _ hy => hy, fun _ hy => .inl hy, fun _ _ => rfl⟩
 
 theorem Keeps.same {st st' : State} (h : Solved st.σ) (hσ : st'.σ = st.σ) (hd : st'.dstore = st.dstore) :
     Keeps st st' :=
   ⟨by rw [hσ]; exact Ext.refl _ h, fun _ hy => .inl (by rw [hσ]; exact hy),
-   fun y _ _ hh => by unfold dget at *; rw [hd]; exact hh⟩
+   fun y _ _ hh => by unfold dget at *; rw [hd]; exact hh,
+   fun y hy => by rw [hσ] at hy; exact hy,
+   fun y hh => .inl (by unfold dget at *; rw [hd] at hh; exact hh),
+   fun y _ => by unfold dget; rw [hd]⟩
 
 theorem Keeps.trans {st st1 st2 : State} (h1 : Keeps st st1) (h2 : Keeps st1 st2) : Keeps st st2 := by
   have num2 : ∀ y n, st1.σ y = Term.num n → st2.σ y = Term.num n := fun y n hy => by
@@ -28,7 +32,8 @@ theorem Keeps.trans {st st1 st2 : State} (h1 : Keeps st st1) (h2 : Keeps st1 st2
     simp only [apply] at this
     rw [hy] at this
     simpa [Term.num, apply] using this.symm
-  refine ⟨Ext.trans h1.ext h2.ext, fun y hy => ?_, fun y hy hy2 hd => ?_⟩
+  refine ⟨Ext.trans h1.ext h2.ext, fun y hy => ?_, fun y hy hy2 hd => ?_, fun y hy => h1.mono y (h2.mono y hy),
+    fun y hh => ?_, fun y hy => ?_⟩
   · rcases h1.numonly y hy with a | ⟨n, a⟩
     · exact h2.numonly y a
     · exact .inr ⟨n, num2 y n a⟩
@@ -37,10 +42,15 @@ theorem Keeps.trans {st st1 st2 : State} (h1 : Keeps st st1) (h2 : Keeps st1 st2
     · have := num2 y n a
       rw [hy2] at this
       simp [Term.num] at this
+  · rcases h2.keys y hh with a | a
+    · exact h1.keys y a
+    · exact .inr (h1.mono y a)
+  · have hb1 : st1.σ y ≠ .var y := fun e => hy (h1.mono y e)
+    rw [h2.bound y hb1, h1.bound y hy]
 
 theorem Ref.bind {S T : Subst → Prop} {st : State} {r : Res State} {f : State → Res State}
-    (h1 : Ref S st r) (h2 : ∀ st1, r = .ok st1 → Ref T st1 (f st1)) :
-    Ref (fun γ => S γ ∧ T γ) st (r.bind f) := by
+    (h1 : Ref I S st r) (h2 : ∀ st1, r = .ok st1 → Ref I T st1 (f st1)) :
+    Ref I (fun γ => S γ ∧ T γ) st (r.bind f) := by
   cases r with
   | ok st1 =>
     have h2' := h2 st1 rfl
@@ -59,8 +69,8 @@ theorem Ref.bind {S T : Subst → Prop} {st : State} {r : Res State} {f : State 
   | fuel => trivial
   | panic s => trivial
 
-theorem Ref.congr {S T : Subst → Prop} {st : State} {r : Res State} (h : Ref S st r)
-    (hST : ∀ γ, Sem γ st → (S γ ↔ T γ)) : Ref T st r := by
+theorem Ref.congr {S T : Subst → Prop} {st : State} {r : Res State} (h : Ref I S st r)
+    (hST : ∀ γ, Sem I γ st → (S γ ↔ T γ)) : Ref I T st r := by
   cases r with
   | ok st1 => exact ⟨h.1, h.2.1, fun γ => by rw [h.2.2 γ]; exact ⟨fun ⟨a, b⟩ => ⟨a, (hST γ a).1 b⟩, fun ⟨a, b⟩ => ⟨a, (hST γ a).2 b⟩⟩⟩
   | fail => intro γ ⟨a, b⟩; exact h γ ⟨a, (hST γ a).2 b⟩
@@ -68,16 +78,16 @@ theorem Ref.congr {S T : Subst → Prop} {st : State} {r : Res State} (h : Ref S
   | panic s => trivial
 
 /-- the condition is already entailed -/
-theorem Ref.entailed {S : Subst → Prop} {st : State} (w : WFS st) (h : ∀ γ, Sem γ st → S γ) : Ref S st (.ok st) :=
+theorem Ref.entailed {S : Subst → Prop} {st : State} (w : WFS st) (h : ∀ γ, Sem I γ st → S γ) : Ref I S st (.ok st) :=
   ⟨w, Keeps.refl w.solved, fun γ => ⟨fun a => ⟨a, h γ a⟩, fun a => a.1⟩⟩
 
 /-- the condition is contradictory -/
-theorem Ref.refuted {S : Subst → Prop} {st : State} (h : ∀ γ, Sem γ st → ¬ S γ) : Ref S st .fail :=
+theorem Ref.refuted {S : Subst → Prop} {st : State} (h : ∀ γ, Sem I γ st → ¬ S γ) : Ref I S st .fail :=
   fun γ ⟨a, b⟩ => h γ a b
 
 /-- run from a state that already incorporates `T` -/
 theorem Ref.pre {S T : Subst → Prop} {st st0 : State} {r : Res State} (k0 : Keeps st st0)
-    (h0 : ∀ γ, Sem γ st0 ↔ (Sem γ st ∧ T γ)) (h : Ref S st0 r) : Ref (fun γ => T γ ∧ S γ) st r := by
+    (h0 : ∀ γ, Sem I γ st0 ↔ (Sem I γ st ∧ T γ)) (h : Ref I S st0 r) : Ref I (fun γ => T γ ∧ S γ) st r := by
   cases r with
   | ok st1 => exact ⟨h.1, k0.trans h.2.1, fun γ => by rw [h.2.2 γ, h0 γ, and_assoc]⟩
   | fail => intro γ ⟨a, b, c⟩; exact h γ ⟨(h0 γ).2 ⟨a, b⟩, c⟩
@@ -85,7 +95,13 @@ theorem Ref.pre {S T : Subst → Prop} {st st0 : State} {r : Res State} (k0 : Ke
   | panic s => trivial
 
 theorem Ref.ok_step {S : Subst → Prop} {st st' : State} (w : WFS st') (k : Keeps st st')
-    (h : ∀ γ, Sem γ st' ↔ (Sem γ st ∧ S γ)) : Ref S st (.ok st') := ⟨w, k, h⟩
+    (h : ∀ γ, Sem I γ st' ↔ (Sem I γ st ∧ S γ)) : Ref I S st (.ok st') := ⟨w, k, h⟩
+
+theorem IOK.keep {st st' : State} (h : IOK I st) (k : Keeps st st') : IOK I st' :=
+  fun y hy e => h y hy (k.mono y e)
+
+theorem IOK.same {st st' : State} (h : IOK I st) (hσ : st'.σ = st.σ) : IOK I st' := by
+  intro y hy; rw [hσ]; exact h y hy
 
 /-! ### numbers under a valuation -/
 
@@ -162,13 +178,14 @@ theorem WFS.same {st st' : State} (w : WFS st) (hσ : st'.σ = st.σ) (hd : st'.
    fun p hp => (hs p hp).elim (w.nodist p) id⟩
 
 theorem sem_same {st st' : State} (hσ : st'.σ = st.σ) (hs : st'.store = st.store) (hd : st'.dstore = st.dstore)
-    (γ : Subst) : Sem γ st' ↔ Sem γ st := by
+    (γ : Subst) : Sem I γ st' ↔ Sem I γ st := by
   unfold Sem DomSem; rw [hσ, hs, hd]
 
 end Pv
 
 namespace Pv
 open State Term FD
+variable {I : Nat → Prop}
 
 /-- weakly well-formed: any interval (an EMPTY one included — propagators compute `lo..hi` with `lo > hi`
     when the constraint is unsatisfiable), or a well-formed vector -/
@@ -241,9 +258,39 @@ theorem intersect_noneI (a b : FD) (ha : WF a) (hb : WFI b) (h : intersect a b =
     intro x hx
     exact absurd ((hm x).2 hx) (by simp)
 
+/-- binding an unbound variable to a number keeps every bound variable bound -/
+theorem bindS_bound {σ : Subst} {x : Nat} {n : Int} (hs : Solved σ) (y : Nat)
+    (h : bindS x (Term.num n) σ y = .var y) : σ y = .var y :=
+  bind_unbound hs (by simp [Term.num, apply]) y h
+
+theorem find_filter_ne (l : List (Nat × FD)) {x y : Nat} (h : y ≠ x) :
+    (l.filter (fun p => p.1 != x)).find? (fun p => p.1 == y) = l.find? (fun p => p.1 == y) := by
+  induction l with
+  | nil => rfl
+  | cons a l ih =>
+    by_cases hax : a.1 = x
+    · have hay : (a.1 == y) = false := by
+        simp only [beq_eq_false_iff_ne, ne_eq]; exact fun e => h (e ▸ hax)
+      have hf : (a.1 != x) = false := by simp [hax]
+      rw [List.filter_cons, hf, List.find?_cons, hay]
+      simpa using ih
+    · have hf : (a.1 != x) = true := by simp [hax]
+      rw [List.filter_cons, hf]
+      simp only [if_true, List.find?_cons]
+      rw [ih]
+
+theorem dget_dremove_ne (st : State) {x y : Nat} (h : y ≠ x) : (st.dremove x).dget y = st.dget y := by
+  unfold dget dremove; simp only; rw [find_filter_ne _ h]
+
+theorem dget_dinsert_ne (st : State) (d : FD) {x y : Nat} (h : y ≠ x) : (st.dinsert x d).dget y = st.dget y := by
+  unfold dget dinsert
+  simp only [List.find?_append, find_filter_ne _ h]
+  have : ([(x, d)] : List (Nat × FD)).find? (fun p => p.1 == y) = none := by simp [Ne.symm h]
+  rw [this, Option.or_none]
+
 /-- the nested `run_constraints` keeps the described valuations exactly -/
 def RcSem (rc : State → Res State) : Prop :=
-  ∀ st, WFS st → Inv st → Ref (fun _ => True) st (rc st)
+  ∀ (I : Nat → Prop) st, IOK I st → WFS st → Inv st → Ref I (fun _ => True) st (rc st)
 
 /-- `x` denotes an integer of `d` -/
 def InDom (x : Term) (d : FD) (γ : Subst) : Prop := ∃ n, NumAt γ x n ∧ d.Mem n
@@ -252,10 +299,11 @@ section WithRC
 variable {rc : State → Res State} (hrs : RcSem rc)
 include hrs
 
-theorem resolveStorable_sem {st : State} {x : Nat} {d : FD} (w : WFS st) (hi : Inv st)
+theorem resolveStorable_sem {st : State} {x : Nat} {d : FD} (hI : IOK I st) (w : WFS st) (hi : Inv st)
     (hx : st.σ x = .var x) (hd : WF d)
     (hsub : ∀ old, st.dget x = some old → ∀ n, d.Mem n → old.Mem n) :
-    Ref (InDom (.var x) d) st (resolveStorable rc st x d) := by
+    Ref I (InDom (.var x) d) st (resolveStorable rc st x d) := by
+  have hnIx : ¬ I x := fun h => hI x h hx
   unfold resolveStorable
   split
   · rename_i n hsv
@@ -270,7 +318,28 @@ theorem resolveStorable_sem {st : State} {x : Nat} {d : FD} (w : WFS st) (hi : I
       · rw [hd0]; exact (List.Sublist.map (fun q : Nat × FD => q.1) List.filter_sublist).nodup w.dnodup
       · intro p hp; rw [hd0] at hp; exact w.dwf p (List.mem_filter.1 hp).1
     have i0 : Inv st0 := by subst hst0; exact SameStore.inv ⟨rfl, rfl, rfl, rfl⟩ hi
-    have h0 : ∀ γ, Sem γ st0 ↔ (Sem γ st ∧ InDom (.var x) d γ) := by
+    have hσx : st0.σ x = Term.num n := by rw [hσ0]; simp [bindS, hx, apply, sub1]
+    have hdget : ∀ y, y ≠ x → st0.dget y = st.dget y := by
+      intro y hyx
+      subst hst0
+      exact dget_dremove_ne _ hyx
+    have k0 : Keeps st st0 := by
+      refine ⟨by rw [hσ0]; exact hbo.2.1, fun y hy => ?_, fun y _ hy2 hh => ?_, fun y hy => ?_, fun y hh => ?_,
+        fun y hy => ?_⟩
+      · rw [hσ0]
+        by_cases hyx : y = x
+        · subst hyx; exact .inr ⟨n, by simp [bindS, hy, apply, sub1]⟩
+        · exact .inl (by simp [bindS, hy, apply, sub1, hyx])
+      · have hyx : y ≠ x := fun e => by rw [e, hσx] at hy2; simp [Term.num] at hy2
+        rw [hdget y hyx]; exact hh
+      · rw [hσ0] at hy; exact bindS_bound w.solved y hy
+      · by_cases hyx : y = x
+        · exact .inr (hyx ▸ hx)
+        · rw [hdget y hyx] at hh; exact .inl hh
+      · have hyx : y ≠ x := fun e => hy (e ▸ hx)
+        exact hdget y hyx
+    have io0 : IOK I st0 := hI.keep k0
+    have h0 : ∀ γ, Sem I γ st0 ↔ (Sem I γ st ∧ InDom (.var x) d γ) := by
       intro γ
       unfold Sem DomSem
       rw [hσ0, hs0, hd0]
@@ -280,27 +349,19 @@ theorem resolveStorable_sem {st : State} {x : Nat} {d : FD} (w : WFS st) (hi : I
         have hxn : NumAt γ (.var x) n := by
           have := (bind_ext_iff (t := Term.num n) hx e').1 e (x, Term.num n) (by simp)
           simpa [NumAt, apply, Term.num] using this
-        refine ⟨⟨e', c, fun p hp => ?_⟩, n, hxn, (hsing n).2 rfl⟩
+        refine ⟨⟨e', c, fun p hp hnI => ?_⟩, n, hxn, (hsing n).2 rfl⟩
         by_cases hpx : p.1 = x
         · have hg : st.dget x = some p.2 := dget_of_mem w.dnodup (by rw [← hpx]; exact hp)
           exact ⟨n, by rw [hpx]; exact hxn, hsub _ hg n ((hsing n).2 rfl)⟩
-        · exact dm p (List.mem_filter.2 ⟨hp, by simpa using hpx⟩)
+        · exact dm p (List.mem_filter.2 ⟨hp, by simpa using hpx⟩) hnI
       · rintro ⟨⟨e, c, dm⟩, m, hm, hmd⟩
         have : m = n := (hsing m).1 hmd
         subst this
-        refine ⟨ext_bind e (by simpa [NumAt, apply, Term.num] using hm), c, fun p hp => dm p (List.mem_filter.1 hp).1⟩
-    have hσx : st0.σ x = Term.num n := by rw [hσ0]; simp [bindS, hx, apply, sub1]
-    have k0 : Keeps st st0 := by
-      refine ⟨by rw [hσ0]; exact hbo.2.1, fun y hy => ?_, fun y _ hy2 hh => ?_⟩
-      · rw [hσ0]
-        by_cases hyx : y = x
-        · subst hyx; exact .inr ⟨n, by simp [bindS, hy, apply, sub1]⟩
-        · exact .inl (by simp [bindS, hy, apply, sub1, hyx])
-      · have hyx : y ≠ x := fun e => by rw [e, hσx] at hy2; simp [Term.num] at hy2
-        obtain ⟨p, hp, hpy⟩ := dget_isSome_iff.1 hh
-        exact dget_isSome_iff.2 ⟨p, by rw [hd0]; exact List.mem_filter.2 ⟨hp, by simpa [hpy] using hyx⟩, hpy⟩
-    exact (Ref.pre k0 h0 (hrs st0 w0 i0)).congr fun γ _ => ⟨fun a => a.1, fun a => ⟨a, trivial⟩⟩
-  · refine Ref.ok_step ?_ ?_ fun γ => ?_
+        refine ⟨ext_bind e (by simpa [NumAt, apply, Term.num] using hm), c,
+          fun p hp hnI => dm p (List.mem_filter.1 hp).1 hnI⟩
+    exact (Ref.pre k0 h0 (hrs I st0 io0 w0 i0)).congr fun γ _ => ⟨fun a => a.1, fun a => ⟨a, trivial⟩⟩
+  · have hdget : ∀ y, y ≠ x → (st.dinsert x d).dget y = st.dget y := fun y hyx => dget_dinsert_ne st d hyx
+    refine Ref.ok_step ?_ ?_ fun γ => ?_
     · refine ⟨w.solved, ?_, ?_, w.nodist⟩
       · simp only [dinsert, List.map_append, List.map_cons, List.map_nil]
         refine List.nodup_append.2 ⟨(List.Sublist.map (fun q : Nat × FD => q.1) List.filter_sublist).nodup w.dnodup, by simp, ?_⟩
@@ -315,32 +376,34 @@ theorem resolveStorable_sem {st : State} {x : Nat} {d : FD} (w : WFS st) (hi : I
         rcases hp with hp | rfl
         · exact w.dwf p (List.mem_filter.1 hp).1
         · exact hd
-    · refine ⟨Ext.refl _ w.solved, fun y hy => .inl hy, fun y _ _ hh => ?_⟩
-      obtain ⟨p, hp, hpy⟩ := dget_isSome_iff.1 hh
-      by_cases hyx : y = x
-      · exact dget_isSome_iff.2 ⟨(x, d), by simp [dinsert], hyx.symm⟩
-      · exact dget_isSome_iff.2 ⟨p, by
-          simp only [dinsert]
-          exact List.mem_append.2 (.inl (List.mem_filter.2 ⟨hp, by simpa [hpy] using hyx⟩)), hpy⟩
+    · refine ⟨Ext.refl _ w.solved, fun y hy => .inl hy, fun y _ _ hh => ?_, fun y hy => hy, fun y hh => ?_, fun y hy => ?_⟩
+      · by_cases hyx : y = x
+        · exact dget_isSome_iff.2 ⟨(x, d), by simp [dinsert], hyx.symm⟩
+        · rw [hdget y hyx]; exact hh
+      · by_cases hyx : y = x
+        · exact .inr (hyx ▸ hx)
+        · rw [hdget y hyx] at hh; exact .inl hh
+      · exact hdget y fun e => hy (e ▸ hx)
     · unfold Sem DomSem InDom
       simp only [dinsert]
       constructor
       · rintro ⟨e, c, dm⟩
-        obtain ⟨n, hn, hnd⟩ := dm (x, d) (by simp)
-        refine ⟨⟨e, c, fun p hp => ?_⟩, n, hn, hnd⟩
+        obtain ⟨n, hn, hnd⟩ := dm (x, d) (by simp) hnIx
+        refine ⟨⟨e, c, fun p hp hnI => ?_⟩, n, hn, hnd⟩
         by_cases hpx : p.1 = x
         · have hg : st.dget x = some p.2 := dget_of_mem w.dnodup (by rw [← hpx]; exact hp)
           exact ⟨n, by rw [hpx]; exact hn, hsub _ hg n hnd⟩
-        · exact dm p (List.mem_append.2 (.inl (List.mem_filter.2 ⟨hp, by simpa using hpx⟩)))
+        · exact dm p (List.mem_append.2 (.inl (List.mem_filter.2 ⟨hp, by simpa using hpx⟩))) hnI
       · rintro ⟨⟨e, c, dm⟩, n, hn, hnd⟩
-        refine ⟨e, c, fun p hp => ?_⟩
+        refine ⟨e, c, fun p hp hnI => ?_⟩
         rcases List.mem_append.1 hp with hp | hp
-        · exact dm p (List.mem_filter.1 hp).1
+        · exact dm p (List.mem_filter.1 hp).1 hnI
         · simp only [List.mem_singleton] at hp; subst hp; exact ⟨n, hn, hnd⟩
 
-theorem updateVarDomain_sem {st : State} {x : Nat} {d : FD} (w : WFS st) (hi : Inv st)
+theorem updateVarDomain_sem {st : State} {x : Nat} {d : FD} (hI : IOK I st) (w : WFS st) (hi : Inv st)
     (hx : st.σ x = .var x) (hd : WFI d) (hdv : WF d ∨ (st.dget x).isSome) :
-    Ref (InDom (.var x) d) st (updateVarDomain rc st x d) := by
+    Ref I (InDom (.var x) d) st (updateVarDomain rc st x d) := by
+  have hnIx : ¬ I x := fun h => hI x h hx
   unfold updateVarDomain
   split
   · rename_i old hold
@@ -348,20 +411,20 @@ theorem updateVarDomain_sem {st : State} {x : Nat} {d : FD} (w : WFS st) (hi : I
     split
     · rename_i i hint
       obtain ⟨hwi, hmi⟩ := intersect_someI old d i hwo hd hint
-      refine (resolveStorable_sem hrs w hi hx hwi fun o ho n hn => ?_).congr fun γ hs => ?_
+      refine (resolveStorable_sem hrs hI w hi hx hwi fun o ho n hn => ?_).congr fun γ hs => ?_
       · rw [hold] at ho; cases ho; exact ((hmi n).1 hn).1
       · unfold InDom
         constructor
         · rintro ⟨n, hn, hni⟩; exact ⟨n, hn, ((hmi n).1 hni).2⟩
         · rintro ⟨n, hn, hnd⟩
-          obtain ⟨m, hm, hmo⟩ := hs.2.2 (x, old) (dget_mem hold)
+          obtain ⟨m, hm, hmo⟩ := hs.2.2 (x, old) (dget_mem hold) hnIx
           have : m = n := numAt_unique hm hn
           subst this
           exact ⟨m, hn, (hmi m).2 ⟨hmo, hnd⟩⟩
     · rename_i hint
       refine Ref.refuted fun γ hs => ?_
       rintro ⟨n, hn, hnd⟩
-      obtain ⟨m, hm, hmo⟩ := hs.2.2 (x, old) (dget_mem hold)
+      obtain ⟨m, hm, hmo⟩ := hs.2.2 (x, old) (dget_mem hold) hnIx
       have : m = n := numAt_unique hm hn
       subst this
       exact intersect_noneI old d hwo hd hint m ⟨hmo, hnd⟩
@@ -370,22 +433,22 @@ theorem updateVarDomain_sem {st : State} {x : Nat} {d : FD} (w : WFS st) (hi : I
       rcases hdv with h | h
       · exact h
       · rw [hnone] at h; cases h
-    exact resolveStorable_sem hrs w hi hx hd' fun o ho => by rw [hnone] at ho; cases ho
+    exact resolveStorable_sem hrs hI w hi hx hd' fun o ho => by rw [hnone] at ho; cases ho
 
-theorem processDomain_sem {st : State} {x : Term} {d : FD} (w : WFS st) (hi : Inv st)
+theorem processDomain_sem {st : State} {x : Term} {d : FD} (hI : IOK I st) (w : WFS st) (hi : Inv st)
     (hd : WFI d) (hdv : WF d ∨ ∀ y, walk st.σ x = .var y → (st.dget y).isSome) :
-    Ref (InDom x d) st (processDomain rc st x d) := by
+    Ref I (InDom x d) st (processDomain rc st x d) := by
   unfold processDomain
   split
   · rename_i y hy
     have hyu : st.σ y = .var y := walk_normal w.solved x y hy
-    refine (updateVarDomain_sem hrs w hi hyu hd (hdv.imp id fun h => h y hy)).congr fun γ hs => ?_
+    refine (updateVarDomain_sem hrs hI w hi hyu hd (hdv.imp id fun h => h y hy)).congr fun γ hs => ?_
     unfold InDom
     constructor <;> rintro ⟨n, hn, hnd⟩
     · exact ⟨n, by rw [← numAt_walk w.solved hs.1, hy]; exact hn, hnd⟩
     · exact ⟨n, by rw [← hy, numAt_walk w.solved hs.1]; exact hn, hnd⟩
   · rename_i v hv
-    have key : ∀ γ, Sem γ st → (InDom x d γ ↔ d.Mem v) := fun γ hs => by
+    have key : ∀ γ, Sem I γ st → (InDom x d γ ↔ d.Mem v) := fun γ hs => by
       unfold InDom
       constructor
       · rintro ⟨n, hn, hnd⟩
@@ -414,12 +477,13 @@ end Pv
 
 namespace Pv
 open State Term FD
+variable {I : Nat → Prop}
 
 /-! ### the constraint store, semantically -/
 
 theorem with_sem (ord : Order) {st : State} {i : Nat} {c : Cst} (w : WFS st) (f : Fr i st)
     (hd : c.isDiseq = false) (hnd : c.isDistinct = false) :
-    Ref (fun γ => CstSem γ c) st (.ok (st.withConstraint ord i c)) := by
+    Ref I (fun γ => CstSem γ c) st (.ok (st.withConstraint ord i c)) := by
   have hf : st.store.filter (fun p => p.1 != i) = st.store := by
     apply List.filter_eq_self.2
     intro q hq
@@ -447,7 +511,7 @@ theorem with_sem (ord : Order) {st : State} {i : Nat} {c : Cst} (w : WFS st) (f 
 /-- taking a constraint out: the state without it, and the constraint, describe the same valuations -/
 theorem take_sem {st st1 : State} {i : Nat} {c : Cst} (hi : Inv st)
     (h : st.takeConstraint i = (st1, some c)) :
-    st1.σ = st.σ ∧ st1.dstore = st.dstore ∧ ∀ γ, Sem γ st ↔ (Sem γ st1 ∧ CstSem γ c) := by
+    st1.σ = st.σ ∧ st1.dstore = st.dstore ∧ ∀ γ, Sem I γ st ↔ (Sem I γ st1 ∧ CstSem γ c) := by
   obtain ⟨f1, f2, f3, f4⟩ := take_fields st i
   have e1 : (st.takeConstraint i).1 = st1 := by rw [h]
   have e2 : (st.takeConstraint i).2 = some c := by rw [h]
@@ -468,7 +532,7 @@ theorem take_sem {st st1 : State} {i : Nat} {c : Cst} (hi : Inv st)
 
 /-- adding a new disequality (normalised by subsumption), over a store of ANY constraints -/
 theorem withNew_diseq_sem {ord : Order} (ho : OrderOK ord) {st : State} (w : WFS st) (hi : Inv st)
-    (ps : Ext1) : Ref (fun γ => DiseqHolds γ ps) st (.ok (st.withNewConstraint ord (.diseq ps))) := by
+    (ps : Ext1) : Ref I (fun γ => DiseqHolds γ ps) st (.ok (st.withNewConstraint ord (.diseq ps))) := by
   unfold State.withNewConstraint
   rw [withConstraint_diseq_eq]
   simp only []
@@ -525,7 +589,7 @@ theorem withNew_diseq_sem {ord : Order} (ho : OrderOK ord) {st : State} (w : WFS
       · simp only [List.mem_singleton] at hq; subst hq; exact b
 
 theorem runDiseq_sem {ord : Order} (ho : OrderOK ord) {st : State} (w : WFS st) (hi : Inv st) (ps : Ext1) :
-    Ref (fun γ => DiseqHolds γ ps) st (runDiseq ord st ps) := by
+    Ref I (fun γ => DiseqHolds γ ps) st (runDiseq ord st ps) := by
   unfold runDiseq
   split
   · trivial
@@ -544,19 +608,21 @@ end Pv
 
 namespace Pv
 open State Term FD
+variable {I : Nat → Prop}
 
 /-! ### the propagators, semantically -/
 
 /-- a re-run one level down adds exactly its constraint -/
 def SelfSem (self : Nat → Cst → State → Res State) : Prop :=
-  ∀ i c st, WFS st → Fr i st → c.isDiseq = false → c.isDistinct = false → Ref (fun γ => CstSem γ c) st (self i c st)
+  ∀ (I : Nat → Prop) i c st, IOK I st → WFS st → Fr i st → c.isDiseq = false → c.isDistinct = false →
+    Ref I (fun γ => CstSem γ c) st (self i c st)
 
-theorem selfSem_fuel : SelfSem (fun _ _ _ => .fuel) := fun _ _ _ _ _ _ _ => trivial
+theorem selfSem_fuel : SelfSem (fun _ _ _ => .fuel) := fun _ _ _ _ _ _ _ _ _ => trivial
 
 theorem Ref.bind' {S T : Subst → Prop} {st : State} {r : Res State} {f : State → Res State}
-    (h1 : Ref S st r)
-    (h2 : ∀ st1, r = .ok st1 → WFS st1 → Keeps st st1 → (∀ γ, Sem γ st1 ↔ (Sem γ st ∧ S γ)) → Ref T st1 (f st1)) :
-    Ref (fun γ => S γ ∧ T γ) st (r.bind f) :=
+    (h1 : Ref I S st r)
+    (h2 : ∀ st1, r = .ok st1 → WFS st1 → Keeps st st1 → (∀ γ, Sem I γ st1 ↔ (Sem I γ st ∧ S γ)) → Ref I T st1 (f st1)) :
+    Ref I (fun γ => S γ ∧ T γ) st (r.bind f) :=
   Ref.bind h1 fun st1 e => by
     subst e
     exact h2 st1 rfl h1.1 h1.2.1 h1.2.2
@@ -581,14 +647,15 @@ theorem HasDomIf.trans {st s1 : State} {t : Term} (h : HasDomIf st t) (k : Keeps
   intro y hy
   exact ⟨walk_normal hs t y hy, h.keep k y hy⟩
 
-/-- what an operand's domain says about its value -/
-theorem opDomain_sem {st : State} (w : WFS st) {t : Term} {d : FD} (h : opDomain st t = some d) :
-    WF d ∧ (∀ γ, Sem γ st → ∀ n, NumAt γ t n → d.Mem n) ∧ (∀ y, t = .var y → (st.dget y).isSome) := by
+/-- what an operand's domain says about its value (`t` is a walked operand: a variable in it is unbound) -/
+theorem opDomain_sem {st : State} (hI : IOK I st) (w : WFS st) {t : Term} {d : FD} (h : opDomain st t = some d)
+    (hu : ∀ x, t = .var x → st.σ x = .var x) :
+    WF d ∧ (∀ γ, Sem I γ st → ∀ n, NumAt γ t n → d.Mem n) ∧ (∀ y, t = .var y → (st.dget y).isSome) := by
   unfold opDomain at h
   split at h
   · rename_i x
     refine ⟨w.dwf _ (dget_mem h), fun γ hs n hn => ?_, fun y hy => by cases hy; rw [h]; rfl⟩
-    obtain ⟨m, hm, hmd⟩ := hs.2.2 _ (dget_mem h)
+    obtain ⟨m, hm, hmd⟩ := hs.2.2 _ (dget_mem h) (fun hx => hI x hx (hu x rfl))
     rw [numAt_unique hn hm]; exact hmd
   · rename_i k
     cases h
@@ -599,12 +666,13 @@ theorem opDomain_sem {st : State} (w : WFS st) {t : Term} {d : FD} (h : opDomain
   · cases h
 
 /-- an operand that has a domain denotes a number of it -/
-theorem opDomain_num {st : State} {t : Term} {d : FD} (h : opDomain st t = some d) {γ : Subst} (hs : Sem γ st) :
+theorem opDomain_num {st : State} (hI : IOK I st) {t : Term} {d : FD} (h : opDomain st t = some d)
+    (hu : ∀ x, t = .var x → st.σ x = .var x) {γ : Subst} (hs : Sem I γ st) :
     ∃ a, NumAt γ t a ∧ d.Mem a := by
   cases t with
   | var x =>
     simp only [opDomain] at h
-    obtain ⟨n, hn, hnd⟩ := hs.2.2 _ (dget_mem h)
+    obtain ⟨n, hn, hnd⟩ := hs.2.2 _ (dget_mem h) (fun hx => hI x hx (hu x rfl))
     exact ⟨n, hn, hnd⟩
   | val c =>
     cases c with
@@ -614,6 +682,17 @@ theorem opDomain_num {st : State} {t : Term} {d : FD} (h : opDomain st t = some 
       exact ⟨k, (numAt_val γ k k).2 rfl, ⟨Int.le_refl _, Int.le_refl _⟩⟩
     | _ => simp [opDomain] at h
   | _ => simp [opDomain] at h
+
+theorem opDomain_walk_sem {st : State} (hI : IOK I st) (w : WFS st) (u : Term) {d : FD}
+    (h : opDomain st (walk st.σ u) = some d) :
+    WF d ∧ (∀ γ, Sem I γ st → ∀ n, NumAt γ (walk st.σ u) n → d.Mem n) ∧
+      (∀ y, walk st.σ u = .var y → (st.dget y).isSome) :=
+  opDomain_sem hI w h fun x hx => walk_normal w.solved u x hx
+
+theorem opDomain_walk_num {st : State} (hI : IOK I st) (w : WFS st) (u : Term) {d : FD}
+    (h : opDomain st (walk st.σ u) = some d) {γ : Subst} (hs : Sem I γ st) :
+    ∃ a, NumAt γ (walk st.σ u) a ∧ d.Mem a :=
+  opDomain_num hI h (fun x hx => walk_normal w.solved u x hx) hs
 
 theorem bounds_of {d : FD} (hd : WF d) {lo hi : Int} (h1 : d.min? = some lo) (h2 : d.max? = some hi) :
     lo ≤ hi ∧ ∀ n, d.Mem n → lo ≤ n ∧ n ≤ hi := by
@@ -628,18 +707,18 @@ include hrc hrs
 
 /-- re-run or re-add, after nested propagation -/
 theorem tail_sem {self : Nat → Cst → State → Res State} (hss : SelfSem self) {i : Nat} {c : Cst}
-    {s : State} {ws : List Term} (w : WFS s) (f : Fr i s) (hd : c.isDiseq = false) (hnd : c.isDistinct = false) :
-    Ref (fun γ => CstSem γ c) s (if operandBound s ws then self i c s else .ok (s.withConstraint ord i c)) := by
+    {s : State} {ws : List Term} (hI : IOK I s) (w : WFS s) (f : Fr i s) (hd : c.isDiseq = false) (hnd : c.isDistinct = false) :
+    Ref I (fun γ => CstSem γ c) s (if operandBound s ws then self i c s else .ok (s.withConstraint ord i c)) := by
   split
-  · exact hss i c s w f hd hnd
+  · exact hss I i c s hI w f hd hnd
   · exact with_sem ord w f hd hnd
 
 theorem narrow3_sem {self : Nat → Cst → State → Res State} (hss : SelfSem self) {i : Nat} {c : Cst}
-    {uw vw ww : Term} {wi ui vi : FD} {st : State} (w : WFS st) (f : Fr i st) (hd : c.isDiseq = false)
+    {uw vw ww : Term} {wi ui vi : FD} {st : State} (hI : IOK I st) (w : WFS st) (f : Fr i st) (hd : c.isDiseq = false)
     (hnd : c.isDistinct = false) (hwi : WFI wi) (hui : WFI ui) (hvi : WFI vi)
     (hu : HasDomIf st uw) (hv : HasDomIf st vw) (hw : HasDomIf st ww)
-    (hent : ∀ γ, Sem γ st → CstSem γ c → InDom ww wi γ ∧ InDom uw ui γ ∧ InDom vw vi γ) :
-    Ref (fun γ => CstSem γ c) st (narrow3 rc ord self i c uw vw ww wi ui vi st) := by
+    (hent : ∀ γ, Sem I γ st → CstSem γ c → InDom ww wi γ ∧ InDom uw ui γ ∧ InDom vw vi γ) :
+    Ref I (fun γ => CstSem γ c) st (narrow3 rc ord self i c uw vw ww wi ui vi st) := by
   unfold narrow3
   have hwalk : ∀ {t : Term}, HasDomIf st t → walk st.σ t = t := by
     intro t ht
@@ -648,20 +727,23 @@ theorem narrow3_sem {self : Nat → Cst → State → Res State} (hss : SelfSem 
     | _ => rfl
   refine Ref.congr (S := fun γ => InDom ww wi γ ∧ (InDom uw ui γ ∧ (InDom vw vi γ ∧ CstSem γ c))) ?_
     fun γ hs => ⟨fun a => a.2.2.2, fun a => ⟨(hent γ hs a).1, (hent γ hs a).2.1, (hent γ hs a).2.2, a⟩⟩
-  refine Ref.bind' (processDomain_sem hrs w f.1 hwi (.inr fun y hy => by rw [hwalk hw] at hy; exact (hw y hy).2))
+  refine Ref.bind' (processDomain_sem hrs hI w f.1 hwi (.inr fun y hy => by rw [hwalk hw] at hy; exact (hw y hy).2))
     fun s1 e1 w1 k1 _ => ?_
   have f1 : Fr i s1 := f.step (processDomain_step hrc f.1 e1)
-  refine Ref.bind' (processDomain_sem hrs w1 f1.1 hui (.inr (hu.keep k1))) fun s2 e2 w2 k2 _ => ?_
+  have hI1 := hI.keep k1
+  refine Ref.bind' (processDomain_sem hrs hI1 w1 f1.1 hui (.inr (hu.keep k1))) fun s2 e2 w2 k2 _ => ?_
   have f2 : Fr i s2 := f1.step (processDomain_step hrc f1.1 e2)
-  refine Ref.bind' (processDomain_sem hrs w2 f2.1 hvi (.inr (hv.keep (k1.trans k2)))) fun s3 e3 w3 _ _ => ?_
+  have hI2 := hI1.keep k2
+  refine Ref.bind' (processDomain_sem hrs hI2 w2 f2.1 hvi (.inr (hv.keep (k1.trans k2)))) fun s3 e3 w3 k3 _ => ?_
   have f3 : Fr i s3 := f2.step (processDomain_step hrc f2.1 e3)
-  exact tail_sem hrc hrs ord hss w3 f3 hd hnd
+  exact tail_sem hrc hrs ord hss (hI2.keep k3) w3 f3 hd hnd
 
 end WithRC
 end Pv
 
 namespace Pv
 open State Term FD
+variable {I : Nat → Prop}
 
 theorem tri_walk {σ γ : Subst} (hs : Solved σ) (hx : Ext σ γ) (u v w : Term) (R : Int → Int → Int → Prop) :
     (∃ a b c, NumAt γ u a ∧ NumAt γ v b ∧ NumAt γ w c ∧ R a b c) ↔
@@ -680,7 +762,8 @@ theorem interval_wfi (lo hi : Int) : WFI (.interval lo hi) := trivial
 /-- the walked operands of a state -/
 theorem hasDomIf_walk {st : State} (w : WFS st) (u : Term) {d : FD} (h : opDomain st (walk st.σ u) = some d) :
     HasDomIf st (walk st.σ u) := fun y hy =>
-  ⟨walk_normal w.solved u y hy, (opDomain_sem w h).2.2 y hy⟩
+  ⟨walk_normal w.solved u y hy, by
+    rw [hy] at h; simp only [opDomain] at h; rw [h]; rfl⟩
 
 section WithRC
 variable {rc : State → Res State} (hrc : RcOK rc) (hrs : RcSem rc) (ord : Order)
@@ -688,51 +771,52 @@ include hrc hrs
 
 /-- the common shape of `plusfd`, `minusfd`, `timesfd` once all three operands have a domain -/
 theorem tri_narrow_sem {self : Nat → Cst → State → Res State} (hss : SelfSem self) {i : Nat} {c : Cst}
-    {u v w : Term} {st : State} (ws : WFS st) (f : Fr i st) (hd : c.isDiseq = false) (hnd : c.isDistinct = false)
+    {u v w : Term} {st : State} (hI : IOK I st) (ws : WFS st) (f : Fr i st) (hd : c.isDiseq = false) (hnd : c.isDistinct = false)
     (R : Int → Int → Int → Prop)
     (hc : ∀ γ, CstSem γ c ↔ ∃ a b c', NumAt γ u a ∧ NumAt γ v b ∧ NumAt γ w c' ∧ R a b c')
     {ud vd wd : FD} (hud : opDomain st (walk st.σ u) = some ud) (hvd : opDomain st (walk st.σ v) = some vd)
     (hwd : opDomain st (walk st.σ w) = some wd) {wi ui vi : FD} (hwi : WFI wi) (hui : WFI ui) (hvi : WFI vi)
     (hB : ∀ a b c', ud.Mem a → vd.Mem b → wd.Mem c' → R a b c' → wi.Mem c' ∧ ui.Mem a ∧ vi.Mem b) :
-    Ref (fun γ => CstSem γ c) st
+    Ref I (fun γ => CstSem γ c) st
       (narrow3 rc ord self i c (walk st.σ u) (walk st.σ v) (walk st.σ w) wi ui vi st) := by
-  refine narrow3_sem hrc hrs ord hss ws f hd hnd hwi hui hvi (hasDomIf_walk ws u hud) (hasDomIf_walk ws v hvd)
+  refine narrow3_sem hrc hrs ord hss hI ws f hd hnd hwi hui hvi (hasDomIf_walk ws u hud) (hasDomIf_walk ws v hvd)
     (hasDomIf_walk ws w hwd) fun γ hs hcs => ?_
   obtain ⟨a, b, c', ha, hb, hc', hr⟩ := (tri_walk ws.solved hs.1 u v w R).1 ((hc γ).1 hcs)
-  have ma := (opDomain_sem ws hud).2.1 γ hs a ha
-  have mb := (opDomain_sem ws hvd).2.1 γ hs b hb
-  have mc := (opDomain_sem ws hwd).2.1 γ hs c' hc'
+  have ma := (opDomain_walk_sem hI ws u hud).2.1 γ hs a ha
+  have mb := (opDomain_walk_sem hI ws v hvd).2.1 γ hs b hb
+  have mc := (opDomain_walk_sem hI ws w hwd).2.1 γ hs c' hc'
   obtain ⟨h1, h2, h3⟩ := hB a b c' ma mb mc hr
   exact ⟨⟨c', hc', h1⟩, ⟨a, ha, h2⟩, ⟨b, hb, h3⟩⟩
 
+omit hrc hrs in
 /-- three ground operands: the constraint is decided -/
 theorem tri_ground_sem {c : Cst} {u v w : Term} {st : State} (ws : WFS st) (R : Int → Int → Int → Prop)
     [∀ a b c, Decidable (R a b c)]
     (hc : ∀ γ, CstSem γ c ↔ ∃ a b c', NumAt γ u a ∧ NumAt γ v b ∧ NumAt γ w c' ∧ R a b c')
     {a b c' : Int} (hu : walk st.σ u = Term.num a) (hv : walk st.σ v = Term.num b) (hw : walk st.σ w = Term.num c') :
-    Ref (fun γ => CstSem γ c) st (if R a b c' then .ok st else .fail) := by
-  have key : ∀ γ, Sem γ st → (CstSem γ c ↔ R a b c') := fun γ hs => by
+    Ref I (fun γ => CstSem γ c) st (if R a b c' then .ok st else .fail) := by
+  have key : ∀ γ, Sem I γ st → (CstSem γ c ↔ R a b c') := fun γ hs => by
     rw [hc γ, tri_walk ws.solved hs.1 u v w R, hu, hv, hw, tri_ground]
   split
   · rename_i h; exact Ref.entailed ws fun γ hs => (key γ hs).2 h
   · rename_i h; exact Ref.refuted fun γ hs hcs => h ((key γ hs).1 hcs)
 
 theorem runPlusFd_sem {self : Nat → Cst → State → Res State} (hss : SelfSem self) {i : Nat}
-    {u v w : Term} {st : State} (ws : WFS st) (f : Fr i st) :
-    Ref (fun γ => CstSem γ (.plusfd u v w)) st (runPlusFd rc ord self i u v w st) := by
+    {u v w : Term} {st : State} (hI : IOK I st) (ws : WFS st) (f : Fr i st) :
+    Ref I (fun γ => CstSem γ (.plusfd u v w)) st (runPlusFd rc ord self i u v w st) := by
   unfold runPlusFd
   simp only []
   split
   · rename_i a b c hu hv hw
-    exact tri_ground_sem hrc hrs ws (fun a b c => a + b = c) (fun γ => Iff.rfl) hu hv hw
+    exact tri_ground_sem ws (fun a b c => a + b = c) (fun γ => Iff.rfl) hu hv hw
   · split
     · rename_i ud vd wd hud hvd hwd
       split
       · rename_i umin umax vmin vmax wmin wmax e1 e2 e3 e4 e5 e6
-        obtain ⟨_, bu⟩ := bounds_of (opDomain_sem ws hud).1 e1 e2
-        obtain ⟨_, bv⟩ := bounds_of (opDomain_sem ws hvd).1 e3 e4
-        obtain ⟨_, bw⟩ := bounds_of (opDomain_sem ws hwd).1 e5 e6
-        refine tri_narrow_sem hrc hrs ord hss ws f rfl rfl (fun a b c => a + b = c) (fun γ => Iff.rfl) hud hvd hwd
+        obtain ⟨_, bu⟩ := bounds_of (opDomain_walk_sem hI ws u hud).1 e1 e2
+        obtain ⟨_, bv⟩ := bounds_of (opDomain_walk_sem hI ws v hvd).1 e3 e4
+        obtain ⟨_, bw⟩ := bounds_of (opDomain_walk_sem hI ws w hwd).1 e5 e6
+        refine tri_narrow_sem hrc hrs ord hss hI ws f rfl rfl (fun a b c => a + b = c) (fun γ => Iff.rfl) hud hvd hwd
           (interval_wfi _ _) (interval_wfi _ _) (interval_wfi _ _) fun a b c ma mb mc hr => ?_
         have := plus_bounds a b c umin umax vmin vmax wmin wmax (bu a ma) (bv b mb) (bw c mc) hr
         exact ⟨this.1, this.2.1, this.2.2⟩
@@ -740,21 +824,21 @@ theorem runPlusFd_sem {self : Nat → Cst → State → Res State} (hss : SelfSe
     · exact with_sem ord ws f rfl rfl
 
 theorem runMinusFd_sem {self : Nat → Cst → State → Res State} (hss : SelfSem self) {i : Nat}
-    {u v w : Term} {st : State} (ws : WFS st) (f : Fr i st) :
-    Ref (fun γ => CstSem γ (.minusfd u v w)) st (runMinusFd rc ord self i u v w st) := by
+    {u v w : Term} {st : State} (hI : IOK I st) (ws : WFS st) (f : Fr i st) :
+    Ref I (fun γ => CstSem γ (.minusfd u v w)) st (runMinusFd rc ord self i u v w st) := by
   unfold runMinusFd
   simp only []
   split
   · rename_i a b c hu hv hw
-    exact tri_ground_sem hrc hrs ws (fun a b c => a - b = c) (fun γ => Iff.rfl) hu hv hw
+    exact tri_ground_sem ws (fun a b c => a - b = c) (fun γ => Iff.rfl) hu hv hw
   · split
     · rename_i ud vd wd hud hvd hwd
       split
       · rename_i umin umax vmin vmax wmin wmax e1 e2 e3 e4 e5 e6
-        obtain ⟨_, bu⟩ := bounds_of (opDomain_sem ws hud).1 e1 e2
-        obtain ⟨_, bv⟩ := bounds_of (opDomain_sem ws hvd).1 e3 e4
-        obtain ⟨_, bw⟩ := bounds_of (opDomain_sem ws hwd).1 e5 e6
-        refine tri_narrow_sem hrc hrs ord hss ws f rfl rfl (fun a b c => a - b = c) (fun γ => Iff.rfl) hud hvd hwd
+        obtain ⟨_, bu⟩ := bounds_of (opDomain_walk_sem hI ws u hud).1 e1 e2
+        obtain ⟨_, bv⟩ := bounds_of (opDomain_walk_sem hI ws v hvd).1 e3 e4
+        obtain ⟨_, bw⟩ := bounds_of (opDomain_walk_sem hI ws w hwd).1 e5 e6
+        refine tri_narrow_sem hrc hrs ord hss hI ws f rfl rfl (fun a b c => a - b = c) (fun γ => Iff.rfl) hud hvd hwd
           (interval_wfi _ _) (interval_wfi _ _) (interval_wfi _ _) fun a b c ma mb mc hr => ?_
         have := minus_bounds a b c umin umax vmin vmax wmin wmax (bu a ma) (bv b mb) (bw c mc) hr
         exact ⟨this.1, this.2.1, this.2.2⟩
@@ -767,22 +851,22 @@ theorem timesBounds_wfi (a b c d e g : Int) :
   simp only [timesBounds]; exact ⟨trivial, trivial, trivial⟩
 
 theorem runTimesFd_sem {self : Nat → Cst → State → Res State} (hss : SelfSem self) {i : Nat}
-    {u v w : Term} {st : State} (ws : WFS st) (f : Fr i st) :
-    Ref (fun γ => CstSem γ (.timesfd u v w)) st (runTimesFd rc ord self i u v w st) := by
+    {u v w : Term} {st : State} (hI : IOK I st) (ws : WFS st) (f : Fr i st) :
+    Ref I (fun γ => CstSem γ (.timesfd u v w)) st (runTimesFd rc ord self i u v w st) := by
   unfold runTimesFd
   simp only []
   split
   · rename_i a b c hu hv hw
-    exact tri_ground_sem hrc hrs ws (fun a b c => a * b = c) (fun γ => Iff.rfl) hu hv hw
+    exact tri_ground_sem ws (fun a b c => a * b = c) (fun γ => Iff.rfl) hu hv hw
   · split
     · rename_i ud vd wd hud hvd hwd
       split
       · rename_i umin umax vmin vmax wmin wmax e1 e2 e3 e4 e5 e6
-        obtain ⟨_, bu⟩ := bounds_of (opDomain_sem ws hud).1 e1 e2
-        obtain ⟨_, bv⟩ := bounds_of (opDomain_sem ws hvd).1 e3 e4
-        obtain ⟨_, bw⟩ := bounds_of (opDomain_sem ws hwd).1 e5 e6
+        obtain ⟨_, bu⟩ := bounds_of (opDomain_walk_sem hI ws u hud).1 e1 e2
+        obtain ⟨_, bv⟩ := bounds_of (opDomain_walk_sem hI ws v hvd).1 e3 e4
+        obtain ⟨_, bw⟩ := bounds_of (opDomain_walk_sem hI ws w hwd).1 e5 e6
         have hw3 := timesBounds_wfi umin umax vmin vmax wmin wmax
-        refine tri_narrow_sem hrc hrs ord hss ws f rfl rfl (fun a b c => a * b = c) (fun γ => Iff.rfl) hud hvd hwd
+        refine tri_narrow_sem hrc hrs ord hss hI ws f rfl rfl (fun a b c => a * b = c) (fun γ => Iff.rfl) hud hvd hwd
           hw3.1 hw3.2.1 hw3.2.2 fun a b c ma mb mc hr => ?_
         exact timesBounds_sound a b c umin umax vmin vmax wmin wmax (bu a ma) (bv b mb) (bw c mc) hr
       · trivial
@@ -793,6 +877,7 @@ end Pv
 
 namespace Pv
 open State Term FD
+variable {I : Nat → Prop}
 
 theorem copyBefore_none_mem (d : FD) (h : WF d) (p : Int → Bool)
     (hp : ∀ x y, p x = true → x ≤ y → p y = true) (hc : copyBefore d p = none) :
@@ -847,11 +932,11 @@ variable {rc : State → Res State} (hrc : RcOK rc) (hrs : RcSem rc) (ord : Orde
 include hrc hrs
 
 theorem runLteFd_sem {self : Nat → Cst → State → Res State} (hss : SelfSem self) {i : Nat}
-    {u v : Term} {st : State} (ws : WFS st) (f : Fr i st) :
-    Ref (fun γ => CstSem γ (.ltefd u v)) st (runLteFd rc ord self i u v st) := by
+    {u v : Term} {st : State} (hI : IOK I st) (ws : WFS st) (f : Fr i st) :
+    Ref I (fun γ => CstSem γ (.ltefd u v)) st (runLteFd rc ord self i u v st) := by
   unfold runLteFd
   simp only []
-  have hsem : ∀ γ, Sem γ st → (CstSem γ (.ltefd u v) ↔
+  have hsem : ∀ γ, Sem I γ st → (CstSem γ (.ltefd u v) ↔
       ∃ a b, NumAt γ (walk st.σ u) a ∧ NumAt γ (walk st.σ v) b ∧ a ≤ b) := fun γ hs =>
     two_walk ws.solved hs.1 u v (fun a b => a ≤ b)
   split
@@ -869,11 +954,11 @@ theorem runLteFd_sem {self : Nat → Cst → State → Res State} (hss : SelfSem
       obtain ⟨m, en, _, hmin⟩ := min_spec udom hwu
       rw [e1] at em; rw [e2] at en; cases em; cases en
       -- what the constraint entails about the operands
-      have hent : ∀ γ, Sem γ st → CstSem γ (.ltefd u v) →
+      have hent : ∀ γ, Sem I γ st → CstSem γ (.ltefd u v) →
           ∃ a b, NumAt γ (walk st.σ u) a ∧ NumAt γ (walk st.σ v) b ∧ a ≤ b ∧ udom.Mem a ∧ vdom.Mem b := by
         intro γ hs hc
         obtain ⟨a, b, ha, hb, hab⟩ := (hsem γ hs).1 hc
-        exact ⟨a, b, ha, hb, hab, (opDomain_sem ws hou).2.1 γ hs a ha, (opDomain_sem ws hov).2.1 γ hs b hb⟩
+        exact ⟨a, b, ha, hb, hab, (opDomain_walk_sem hI ws u hou).2.1 γ hs a ha, (opDomain_walk_sem hI ws v hov).2.1 γ hs b hb⟩
       have mono1 : ∀ x y : Int, decide (vmax < x) = true → x ≤ y → decide (vmax < y) = true := by
         intro x y h1 h2; simp only [decide_eq_true_eq] at h1 ⊢; omega
       have mono2 : ∀ x y : Int, decide (umin ≤ x) = true → x ≤ y → decide (umin ≤ y) = true := by
@@ -891,8 +976,9 @@ theorem runLteFd_sem {self : Nat → Cst → State → Res State} (hss : SelfSem
         have mud' := copyBefore_mono udom ud' hwu _ mono1 hcb
         refine Ref.congr (S := fun γ => InDom (walk st.σ u) ud' γ ∧ CstSem γ (.ltefd u v)) ?_
           fun γ hs => ⟨fun a => a.2, fun a => ⟨?_, a⟩⟩
-        · refine Ref.bind' (processDomain_sem hrs ws f.1 (WFI.of_wf hud'.1) (.inl hud'.1)) fun s1 e1 w1 k1 hs1 => ?_
+        · refine Ref.bind' (processDomain_sem hrs hI ws f.1 (WFI.of_wf hud'.1) (.inl hud'.1)) fun s1 e1 w1 k1 hs1 => ?_
           have f1 : Fr i s1 := f.step (processDomain_step hrc f.1 e1)
+          have hI1 := hI.keep k1
           split
           · rename_i hdb
             refine Ref.refuted fun γ hs hc => ?_
@@ -906,9 +992,9 @@ theorem runLteFd_sem {self : Nat → Cst → State → Res State} (hss : SelfSem
             have mvd' := dropBefore_mono vdom vd' hwv _ mono2 hdb
             refine Ref.congr (S := fun γ => InDom (walk st.σ v) vd' γ ∧ CstSem γ (.ltefd u v)) ?_
               fun γ hs => ⟨fun a => a.2, fun a => ⟨?_, a⟩⟩
-            · refine Ref.bind' (processDomain_sem hrs w1 f1.1 (WFI.of_wf hvd'.1) (.inl hvd'.1)) fun s2 e2 w2 _ _ => ?_
+            · refine Ref.bind' (processDomain_sem hrs hI1 w1 f1.1 (WFI.of_wf hvd'.1) (.inl hvd'.1)) fun s2 e2 w2 k2 _ => ?_
               have f2 : Fr i s2 := f1.step (processDomain_step hrc f1.1 e2)
-              exact tail_sem hrc hrs ord hss w2 f2 rfl rfl
+              exact tail_sem hrc hrs ord hss (hI1.keep k2) w2 f2 rfl rfl
             · obtain ⟨a', b, _, hb, hab, ma, mb⟩ := hent γ ((hs1 γ).1 hs).1 a
               refine ⟨b, hb, (mvd' b).2 ⟨mb, ?_⟩⟩
               have := hmin a' ma
@@ -927,14 +1013,14 @@ theorem runLteFd_sem {self : Nat → Cst → State → Res State} (hss : SelfSem
     · rename_i b hvb
       have mono1 : ∀ x y : Int, decide (b < x) = true → x ≤ y → decide (b < y) = true := by
         intro x y h1 h2; simp only [decide_eq_true_eq] at h1 ⊢; omega
-      have key : ∀ γ, Sem γ st → (CstSem γ (.ltefd u v) ↔ ∃ a, NumAt γ (walk st.σ u) a ∧ udom.Mem a ∧ a ≤ b) := by
+      have key : ∀ γ, Sem I γ st → (CstSem γ (.ltefd u v) ↔ ∃ a, NumAt γ (walk st.σ u) a ∧ udom.Mem a ∧ a ≤ b) := by
         intro γ hs
         rw [hsem γ hs, hvb]
         constructor
         · rintro ⟨a, b', ha, hb, hab⟩
           have : b = b' := (numAt_num γ b b').1 hb
           subst this
-          exact ⟨a, ha, (opDomain_sem ws hou).2.1 γ hs a ha, hab⟩
+          exact ⟨a, ha, (opDomain_walk_sem hI ws u hou).2.1 γ hs a ha, hab⟩
         · rintro ⟨a, ha, _, hab⟩
           exact ⟨a, b, ha, (numAt_num γ b b).2 rfl, hab⟩
       split
@@ -947,7 +1033,7 @@ theorem runLteFd_sem {self : Nat → Cst → State → Res State} (hss : SelfSem
       · rename_i ud' hcb
         have hud' := (copyBefore_spec udom hwu _).1 ud' hcb
         have mud' := copyBefore_mono udom ud' hwu _ mono1 hcb
-        refine (processDomain_sem hrs ws f.1 (WFI.of_wf hud'.1) (.inl hud'.1)).congr fun γ hs => ?_
+        refine (processDomain_sem hrs hI ws f.1 (WFI.of_wf hud'.1) (.inl hud'.1)).congr fun γ hs => ?_
         rw [key γ hs]
         unfold InDom
         constructor
@@ -966,14 +1052,14 @@ theorem runLteFd_sem {self : Nat → Cst → State → Res State} (hss : SelfSem
     · rename_i a hua
       have mono2 : ∀ x y : Int, decide (a ≤ x) = true → x ≤ y → decide (a ≤ y) = true := by
         intro x y h1 h2; simp only [decide_eq_true_eq] at h1 ⊢; omega
-      have key : ∀ γ, Sem γ st → (CstSem γ (.ltefd u v) ↔ ∃ b, NumAt γ (walk st.σ v) b ∧ vdom.Mem b ∧ a ≤ b) := by
+      have key : ∀ γ, Sem I γ st → (CstSem γ (.ltefd u v) ↔ ∃ b, NumAt γ (walk st.σ v) b ∧ vdom.Mem b ∧ a ≤ b) := by
         intro γ hs
         rw [hsem γ hs, hua]
         constructor
         · rintro ⟨a', b, ha, hb, hab⟩
           have : a = a' := (numAt_num γ a a').1 ha
           subst this
-          exact ⟨b, hb, (opDomain_sem ws hov).2.1 γ hs b hb, hab⟩
+          exact ⟨b, hb, (opDomain_walk_sem hI ws v hov).2.1 γ hs b hb, hab⟩
         · rintro ⟨b, hb, _, hab⟩
           exact ⟨a, b, (numAt_num γ a a).2 rfl, hb, hab⟩
       split
@@ -986,7 +1072,7 @@ theorem runLteFd_sem {self : Nat → Cst → State → Res State} (hss : SelfSem
       · rename_i vd' hdb
         have hvd' := (dropBefore_spec vdom hwv _).1 vd' hdb
         have mvd' := dropBefore_mono vdom vd' hwv _ mono2 hdb
-        refine (processDomain_sem hrs ws f.1 (WFI.of_wf hvd'.1) (.inl hvd'.1)).congr fun γ hs => ?_
+        refine (processDomain_sem hrs hI ws f.1 (WFI.of_wf hvd'.1) (.inl hvd'.1)).congr fun γ hs => ?_
         rw [key γ hs]
         unfold InDom
         constructor
@@ -999,7 +1085,7 @@ theorem runLteFd_sem {self : Nat → Cst → State → Res State} (hss : SelfSem
   · -- neither has a domain
     split
     · rename_i a b hua hvb
-      have key : ∀ γ, Sem γ st → (CstSem γ (.ltefd u v) ↔ a ≤ b) := fun γ hs => by
+      have key : ∀ γ, Sem I γ st → (CstSem γ (.ltefd u v) ↔ a ≤ b) := fun γ hs => by
         rw [hsem γ hs, hua, hvb]
         simp only [numAt_val]
         constructor
@@ -1015,6 +1101,7 @@ end Pv
 
 namespace Pv
 open State Term FD
+variable {I : Nat → Prop}
 
 theorem numAt_shape {γ : Subst} {t : Term} {n : Int} (h : NumAt γ t n) :
     (∃ x, t = .var x) ∨ t = .val (.num n) := by
@@ -1030,8 +1117,8 @@ variable {rc : State → Res State} (hrc : RcOK rc) (hrs : RcSem rc) (ord : Orde
 include hrs
 
 /-- CLP(Z): a variable operand is bound to the computed number, then the store is re-run -/
-theorem bindNum_sem {st : State} (ws : WFS st) (hi : Inv st) {z : Nat} (hz : st.σ z = .var z) (n : Int) :
-    Ref (fun γ => NumAt γ (.var z) n) st (rc { st with σ := bindS z (Term.num n) st.σ }) := by
+theorem bindNum_sem {st : State} (hI : IOK I st) (ws : WFS st) (hi : Inv st) {z : Nat} (hz : st.σ z = .var z) (n : Int) :
+    Ref I (fun γ => NumAt γ (.var z) n) st (rc { st with σ := bindS z (Term.num n) st.σ }) := by
   generalize hst0 : ({ st with σ := bindS z (Term.num n) st.σ } : State) = st0
   have hσ0 : st0.σ = bindS z (Term.num n) st.σ := by subst hst0; rfl
   have hs0 : st0.store = st.store := by subst hst0; rfl
@@ -1041,12 +1128,14 @@ theorem bindNum_sem {st : State} (ws : WFS st) (hi : Inv st) {z : Nat} (hz : st.
     by rw [hs0]; exact ws.nodist⟩
   have i0 : Inv st0 := by subst hst0; exact SameStore.inv ⟨rfl, rfl, rfl, rfl⟩ hi
   have k0 : Keeps st st0 := by
-    refine ⟨by rw [hσ0]; exact hbo.2.1, fun y hy => ?_, fun y _ _ hh => by unfold dget at *; rw [hd0]; exact hh⟩
+    refine ⟨by rw [hσ0]; exact hbo.2.1, fun y hy => ?_, fun y _ _ hh => by unfold dget at *; rw [hd0]; exact hh,
+      fun y hy => by rw [hσ0] at hy; exact bindS_bound ws.solved y hy,
+      fun y hh => .inl (by unfold dget at *; rw [hd0] at hh; exact hh), fun y _ => by unfold dget; rw [hd0]⟩
     rw [hσ0]
     by_cases hyz : y = z
     · subst hyz; exact .inr ⟨n, by simp [bindS, hy, apply, sub1]⟩
     · exact .inl (by simp [bindS, hy, apply, sub1, hyz])
-  have h0 : ∀ γ, Sem γ st0 ↔ (Sem γ st ∧ NumAt γ (.var z) n) := by
+  have h0 : ∀ γ, Sem I γ st0 ↔ (Sem I γ st ∧ NumAt γ (.var z) n) := by
     intro γ
     unfold Sem DomSem
     rw [hσ0, hs0, hd0]
@@ -1059,30 +1148,30 @@ theorem bindNum_sem {st : State} (ws : WFS st) (hi : Inv st) {z : Nat} (hz : st.
       exact ⟨⟨e', c, dm⟩, hzn⟩
     · rintro ⟨⟨e, c, dm⟩, hm⟩
       exact ⟨ext_bind e (by simpa [NumAt, apply, Term.num] using hm), c, dm⟩
-  exact (Ref.pre k0 h0 (hrs st0 w0 i0)).congr fun γ _ => ⟨fun a => a.1, fun a => ⟨a, trivial⟩⟩
+  exact (Ref.pre k0 h0 (hrs I st0 (hI.keep k0) w0 i0)).congr fun γ _ => ⟨fun a => a.1, fun a => ⟨a, trivial⟩⟩
 
-theorem runPlusZ_sem {i : Nat} {u v w : Term} {st : State} (ws : WFS st) (f : Fr i st) :
-    Ref (fun γ => CstSem γ (.plusz u v w)) st (runPlusZ rc ord i u v w st) := by
+theorem runPlusZ_sem {i : Nat} {u v w : Term} {st : State} (hI : IOK I st) (ws : WFS st) (f : Fr i st) :
+    Ref I (fun γ => CstSem γ (.plusz u v w)) st (runPlusZ rc ord i u v w st) := by
   unfold runPlusZ
-  have hsem : ∀ γ, Sem γ st → (CstSem γ (.plusz u v w) ↔
+  have hsem : ∀ γ, Sem I γ st → (CstSem γ (.plusz u v w) ↔
       ∃ a b c, NumAt γ (walk st.σ u) a ∧ NumAt γ (walk st.σ v) b ∧ NumAt γ (walk st.σ w) c ∧ a + b = c) :=
     fun γ hs => tri_walk ws.solved hs.1 u v w (fun a b c => a + b = c)
   split
   · rename_i a b c hu hv hw
-    have key : ∀ γ, Sem γ st → (CstSem γ (.plusz u v w) ↔ a + b = c) := fun γ hs => by
+    have key : ∀ γ, Sem I γ st → (CstSem γ (.plusz u v w) ↔ a + b = c) := fun γ hs => by
       rw [hsem γ hs, hu, hv, hw]; exact tri_ground (fun a b c => a + b = c)
     split
     · rename_i h; exact Ref.entailed ws fun γ hs => (key γ hs).2 h
     · rename_i h; exact Ref.refuted fun γ hs hc => h ((key γ hs).1 hc)
   · rename_i a b z hu hv hw
-    refine (bindNum_sem hrs ws f.1 (walk_normal ws.solved w z hw) (a + b)).congr fun γ hs => ?_
+    refine (bindNum_sem hrs hI ws f.1 (walk_normal ws.solved w z hw) (a + b)).congr fun γ hs => ?_
     rw [hsem γ hs, hu, hv, hw]
     simp only [numAt_val]
     constructor
     · intro h; exact ⟨a, b, a + b, rfl, rfl, h, rfl⟩
     · rintro ⟨_, _, _, rfl, rfl, h, rfl⟩; exact h
   · rename_i a y c hu hv hw
-    refine (bindNum_sem hrs ws f.1 (walk_normal ws.solved v y hv) (c - a)).congr fun γ hs => ?_
+    refine (bindNum_sem hrs hI ws f.1 (walk_normal ws.solved v y hv) (c - a)).congr fun γ hs => ?_
     rw [hsem γ hs, hu, hv, hw]
     simp only [numAt_val]
     constructor
@@ -1091,7 +1180,7 @@ theorem runPlusZ_sem {i : Nat} {u v w : Term} {st : State} (ws : WFS st) (f : Fr
       have : b = c - a := by omega
       rw [← this]; exact h
   · rename_i x b c hu hv hw
-    refine (bindNum_sem hrs ws f.1 (walk_normal ws.solved u x hu) (c - b)).congr fun γ hs => ?_
+    refine (bindNum_sem hrs hI ws f.1 (walk_normal ws.solved u x hu) (c - b)).congr fun γ hs => ?_
     rw [hsem γ hs, hu, hv, hw]
     simp only [numAt_val]
     constructor
@@ -1114,6 +1203,7 @@ end Pv
 
 namespace Pv
 open State Term FD
+variable {I : Nat → Prop}
 
 theorem mul_eq_iff_tdiv {a b c : Int} (ha : a ≠ 0) (hm : c.tmod a = 0) : a * b = c ↔ b = c.tdiv a := by
   constructor
@@ -1124,28 +1214,28 @@ section WithRC
 variable {rc : State → Res State} (hrs : RcSem rc) (ord : Order)
 include hrs
 
-theorem runTimesZ_sem {i : Nat} {u v w : Term} {st : State} (ws : WFS st) (f : Fr i st) :
-    Ref (fun γ => CstSem γ (.timesz u v w)) st (runTimesZ rc ord i u v w st) := by
+theorem runTimesZ_sem {i : Nat} {u v w : Term} {st : State} (hI : IOK I st) (ws : WFS st) (f : Fr i st) :
+    Ref I (fun γ => CstSem γ (.timesz u v w)) st (runTimesZ rc ord i u v w st) := by
   unfold runTimesZ
-  have hsem : ∀ γ, Sem γ st → (CstSem γ (.timesz u v w) ↔
+  have hsem : ∀ γ, Sem I γ st → (CstSem γ (.timesz u v w) ↔
       ∃ a b c, NumAt γ (walk st.σ u) a ∧ NumAt γ (walk st.σ v) b ∧ NumAt γ (walk st.σ w) c ∧ a * b = c) :=
     fun γ hs => tri_walk ws.solved hs.1 u v w (fun a b c => a * b = c)
   split
   · rename_i a b c hu hv hw
-    have key : ∀ γ, Sem γ st → (CstSem γ (.timesz u v w) ↔ a * b = c) := fun γ hs => by
+    have key : ∀ γ, Sem I γ st → (CstSem γ (.timesz u v w) ↔ a * b = c) := fun γ hs => by
       rw [hsem γ hs, hu, hv, hw]; exact tri_ground (fun a b c => a * b = c)
     split
     · rename_i h; exact Ref.entailed ws fun γ hs => (key γ hs).2 h
     · rename_i h; exact Ref.refuted fun γ hs hc => h ((key γ hs).1 hc)
   · rename_i a b z hu hv hw
-    refine (bindNum_sem hrs ws f.1 (walk_normal ws.solved w z hw) (a * b)).congr fun γ hs => ?_
+    refine (bindNum_sem hrs hI ws f.1 (walk_normal ws.solved w z hw) (a * b)).congr fun γ hs => ?_
     rw [hsem γ hs, hu, hv, hw]
     simp only [numAt_val]
     constructor
     · intro h; exact ⟨a, b, a * b, rfl, rfl, h, rfl⟩
     · rintro ⟨_, _, _, rfl, rfl, h, rfl⟩; exact h
   · rename_i a y c hu hv hw
-    have key : ∀ γ, Sem γ st → (CstSem γ (.timesz u v w) ↔ ∃ b, NumAt γ (.var y) b ∧ a * b = c) := fun γ hs => by
+    have key : ∀ γ, Sem I γ st → (CstSem γ (.timesz u v w) ↔ ∃ b, NumAt γ (.var y) b ∧ a * b = c) := fun γ hs => by
       rw [hsem γ hs, hu, hv, hw]
       simp only [numAt_val]
       constructor
@@ -1169,13 +1259,13 @@ theorem runTimesZ_sem {i : Nat} {u v w : Term} {st : State} (ws : WFS st) (f : F
         exact hm rfl
       · rename_i hm
         have hm' : c.tmod a = 0 := by simpa using hm
-        refine (bindNum_sem hrs ws f.1 (walk_normal ws.solved v y hv) (c.tdiv a)).congr fun γ hs => ?_
+        refine (bindNum_sem hrs hI ws f.1 (walk_normal ws.solved v y hv) (c.tdiv a)).congr fun γ hs => ?_
         rw [key γ hs]
         constructor
         · intro h; exact ⟨c.tdiv a, h, (mul_eq_iff_tdiv ha hm').2 rfl⟩
         · rintro ⟨b, h, e⟩; rw [← (mul_eq_iff_tdiv ha hm').1 e]; exact h
   · rename_i x b c hu hv hw
-    have key : ∀ γ, Sem γ st → (CstSem γ (.timesz u v w) ↔ ∃ a, NumAt γ (.var x) a ∧ b * a = c) := fun γ hs => by
+    have key : ∀ γ, Sem I γ st → (CstSem γ (.timesz u v w) ↔ ∃ a, NumAt γ (.var x) a ∧ b * a = c) := fun γ hs => by
       rw [hsem γ hs, hu, hv, hw]
       simp only [numAt_val]
       constructor
@@ -1199,7 +1289,7 @@ theorem runTimesZ_sem {i : Nat} {u v w : Term} {st : State} (ws : WFS st) (f : F
         exact hm rfl
       · rename_i hm
         have hm' : c.tmod b = 0 := by simpa using hm
-        refine (bindNum_sem hrs ws f.1 (walk_normal ws.solved u x hu) (c.tdiv b)).congr fun γ hs => ?_
+        refine (bindNum_sem hrs hI ws f.1 (walk_normal ws.solved u x hu) (c.tdiv b)).congr fun γ hs => ?_
         rw [key γ hs]
         constructor
         · intro h; exact ⟨c.tdiv b, h, (mul_eq_iff_tdiv hb hm').2 rfl⟩
@@ -1218,24 +1308,25 @@ end Pv
 
 namespace Pv
 open State Term FD
+variable {I : Nat → Prop}
 
 section WithRC
 variable {rc : State → Res State} (hrc : RcOK rc) (hrs : RcSem rc) (ord : Order)
 include hrc hrs
 
-theorem runDiseqFd_sem {i : Nat} {u v : Term} {st : State} (ws : WFS st) (f : Fr i st) :
-    Ref (fun γ => CstSem γ (.diseqfd u v)) st (runDiseqFd rc ord i u v st) := by
+theorem runDiseqFd_sem {i : Nat} {u v : Term} {st : State} (hI : IOK I st) (ws : WFS st) (f : Fr i st) :
+    Ref I (fun γ => CstSem γ (.diseqfd u v)) st (runDiseqFd rc ord i u v st) := by
   unfold runDiseqFd
   simp only []
-  have hsem : ∀ γ, Sem γ st → (CstSem γ (.diseqfd u v) ↔
+  have hsem : ∀ γ, Sem I γ st → (CstSem γ (.diseqfd u v) ↔
       ∃ a b, NumAt γ (walk st.σ u) a ∧ NumAt γ (walk st.σ v) b ∧ a ≠ b) := fun γ hs =>
     two_walk ws.solved hs.1 u v (fun a b => a ≠ b)
   split
   · rename_i ud vd hud hvd
-    obtain ⟨hwu, hmu, _⟩ := opDomain_sem ws hud
-    obtain ⟨hwv, hmv, _⟩ := opDomain_sem ws hvd
+    obtain ⟨hwu, hmu, _⟩ := opDomain_walk_sem hI ws u hud
+    obtain ⟨hwv, hmv, _⟩ := opDomain_walk_sem hI ws v hvd
     -- the operands denote members of their domains
-    have hent : ∀ γ, Sem γ st → CstSem γ (.diseqfd u v) →
+    have hent : ∀ γ, Sem I γ st → CstSem γ (.diseqfd u v) →
         ∃ a b, NumAt γ (walk st.σ u) a ∧ NumAt γ (walk st.σ v) b ∧ a ≠ b ∧ ud.Mem a ∧ vd.Mem b := by
       intro γ hs hc
       obtain ⟨a, b, ha, hb, hab⟩ := (hsem γ hs).1 hc
@@ -1263,8 +1354,8 @@ theorem runDiseqFd_sem {i : Nat} {u v : Term} {st : State} (ws : WFS st) (f : Fr
         refine Ref.entailed ws fun γ hs => ?_
         rw [hsem γ hs]
         -- both operands have domains, hence denote numbers
-        have hnu := opDomain_num hud hs
-        have hnv := opDomain_num hvd hs
+        have hnu := opDomain_walk_num hI ws u hud hs
+        have hnv := opDomain_walk_num hI ws v hvd hs
         obtain ⟨a, ha, ma⟩ := hnu
         obtain ⟨b, hb, mb⟩ := hnv
         exact ⟨a, b, ha, hb, by rw [hpu a ma, hqu b mb, ← hm1p, ← hm2q]; exact hne'⟩
@@ -1276,13 +1367,13 @@ theorem runDiseqFd_sem {i : Nat} {u v : Term} {st : State} (ws : WFS st) (f : Fr
         have hdj := hr.1 rfl
         refine Ref.entailed ws fun γ hs => ?_
         rw [hsem γ hs]
-        have hnu := opDomain_num hud hs
-        have hnv := opDomain_num hvd hs
+        have hnu := opDomain_walk_num hI ws u hud hs
+        have hnv := opDomain_walk_num hI ws v hvd hs
         obtain ⟨a, ha, ma⟩ := hnu
         obtain ⟨b, hb, mb⟩ := hnv
         exact ⟨a, b, ha, hb, fun e => hdj a ⟨ma, e ▸ mb⟩⟩
       · -- the constraint is stored, then a singleton side is removed from the other domain
-        have hw1 := with_sem ord ws f (c := .diseqfd u v) rfl rfl
+        have hw1 := with_sem (I := I) ord ws f (c := .diseqfd u v) rfl rfl
         have st1inv := (with_step ord st i (.diseqfd u v) f.1 f.2.1 f.2.2).inv
         obtain ⟨w1, k1, s1⟩ := hw1
         split
@@ -1294,7 +1385,7 @@ theorem runDiseqFd_sem {i : Nat} {u v : Term} {st : State} (ws : WFS st) (f : Fr
             refine Ref.congr (S := fun γ => CstSem γ (.diseqfd u v) ∧ InDom (walk st.σ v) d γ) ?_
               fun γ hs => ⟨fun a => a.1, fun a => ⟨a, ?_⟩⟩
             · exact Ref.bind (f := fun s => processDomain rc s (walk st.σ v) d) (r := .ok _) ⟨w1, k1, s1⟩
-                fun s e => by cases e; exact processDomain_sem hrs w1 st1inv (WFI.of_wf hwd) (.inl hwd)
+                fun s e => by cases e; exact processDomain_sem hrs (hI.keep k1) w1 st1inv (WFI.of_wf hwd) (.inl hwd)
             · obtain ⟨a', b, _, hb, hab, ma, mb⟩ := hent γ hs a
               exact ⟨b, hb, (hmd b).2 ⟨mb, fun h => hab (by rw [hpu a' ma, hpu b h])⟩⟩
           · rename_i hdiff
@@ -1311,7 +1402,7 @@ theorem runDiseqFd_sem {i : Nat} {u v : Term} {st : State} (ws : WFS st) (f : Fr
               refine Ref.congr (S := fun γ => CstSem γ (.diseqfd u v) ∧ InDom (walk st.σ u) d γ) ?_
                 fun γ hs => ⟨fun a => a.1, fun a => ⟨a, ?_⟩⟩
               · exact Ref.bind (f := fun s => processDomain rc s (walk st.σ u) d) (r := .ok _) ⟨w1, k1, s1⟩
-                  fun s e => by cases e; exact processDomain_sem hrs w1 st1inv (WFI.of_wf hwd) (.inl hwd)
+                  fun s e => by cases e; exact processDomain_sem hrs (hI.keep k1) w1 st1inv (WFI.of_wf hwd) (.inl hwd)
               · obtain ⟨a', b, ha, _, hab, ma, mb⟩ := hent γ hs a
                 exact ⟨a', ha, (hmd a').2 ⟨ma, fun h => hab (by rw [hqu a' h, hqu b mb])⟩⟩
             · rename_i hdiff
@@ -1327,22 +1418,24 @@ end Pv
 
 namespace Pv
 open State Term FD
+variable {I : Nat → Prop}
 
 /-- a fold of binds in which every step keeps the described valuations keeps them as a whole -/
 theorem fold_ref {α : Type} (f : State → α → Res State)
-    (hf : ∀ cur a, WFS cur → Inv cur → Ref (fun _ => True) cur (f cur a) ∧ ∀ cur', f cur a = .ok cur' → Inv cur') :
-    ∀ (l : List α) (st : State), WFS st → Inv st →
-      Ref (fun _ => True) st (l.foldl (fun (r : Res State) a => r.bind fun st => f st a) (.ok st))
-  | [], st, w, _ => Ref.entailed w fun _ _ => trivial
-  | a :: l, st, w, hi => by
+    (hf : ∀ cur a, IOK I cur → WFS cur → Inv cur →
+      Ref I (fun _ => True) cur (f cur a) ∧ ∀ cur', f cur a = .ok cur' → Inv cur') :
+    ∀ (l : List α) (st : State), IOK I st → WFS st → Inv st →
+      Ref I (fun _ => True) st (l.foldl (fun (r : Res State) a => r.bind fun st => f st a) (.ok st))
+  | [], st, _, w, _ => Ref.entailed w fun _ _ => trivial
+  | a :: l, st, hI, w, hi => by
     simp only [List.foldl_cons]
     have hb0 : ((Res.ok st).bind fun st => f st a) = f st a := rfl
     rw [hb0]
-    obtain ⟨h1, h2⟩ := hf st a w hi
+    obtain ⟨h1, h2⟩ := hf st a hI w hi
     cases hfa : f st a with
     | ok s1 =>
       rw [hfa] at h1
-      have ih := fold_ref f hf l s1 h1.1 (h2 s1 hfa)
+      have ih := fold_ref f hf l s1 (hI.keep h1.2.1) h1.1 (h2 s1 hfa)
       have := Ref.bind (f := fun _ => l.foldl (fun (r : Res State) a => r.bind fun st => f st a) (.ok s1))
         (r := .ok s1) h1 (fun s e => by cases e; exact ih)
       exact this.congr fun γ _ => ⟨fun _ => trivial, fun _ => ⟨trivial, trivial⟩⟩
@@ -1358,32 +1451,32 @@ variable {rc : State → Res State} (hrc : RcOK rc) (hrs : RcSem rc) {ord : Orde
 include hrc hrs ho
 
 theorem runCstBody_sem {self : Nat → Cst → State → Res State} (hss : SelfSem self) {i : Nat} {c : Cst}
-    {st : State} (ws : WFS st) (f : Fr i st) (hnd : c.isDistinct = false) :
-    Ref (fun γ => CstSem γ c) st (runCstBody rc ord self i c st) := by
+    {st : State} (hI : IOK I st) (ws : WFS st) (f : Fr i st) (hnd : c.isDistinct = false) :
+    Ref I (fun γ => CstSem γ c) st (runCstBody rc ord self i c st) := by
   cases c with
   | diseq ps => exact runDiseq_sem ho ws f.1 ps
-  | plusz u v w => exact runPlusZ_sem hrs ord ws f
-  | timesz u v w => exact runTimesZ_sem hrs ord ws f
-  | ltefd u v => exact runLteFd_sem hrc hrs ord hss ws f
-  | plusfd u v w => exact runPlusFd_sem hrc hrs ord hss ws f
-  | minusfd u v w => exact runMinusFd_sem hrc hrs ord hss ws f
-  | timesfd u v w => exact runTimesFd_sem hrc hrs ord hss ws f
-  | diseqfd u v => exact runDiseqFd_sem hrc hrs ord ws f
+  | plusz u v w => exact runPlusZ_sem hrs ord hI ws f
+  | timesz u v w => exact runTimesZ_sem hrs ord hI ws f
+  | ltefd u v => exact runLteFd_sem hrc hrs ord hss hI ws f
+  | plusfd u v w => exact runPlusFd_sem hrc hrs ord hss hI ws f
+  | minusfd u v w => exact runMinusFd_sem hrc hrs ord hss hI ws f
+  | timesfd u v w => exact runTimesFd_sem hrc hrs ord hss hI ws f
+  | diseqfd u v => exact runDiseqFd_sem hrc hrs ord hI ws f
   | distinctfd u => cases hnd
   | distinctfd2 u y n => cases hnd
 
 theorem runCst_selfSem : ∀ k, SelfSem (runCst rc ord k)
-  | 0 => fun _ _ _ w f _ hnd => runCstBody_sem hrc hrs ho selfSem_fuel w f hnd
-  | k + 1 => fun _ _ _ w f _ hnd => runCstBody_sem hrc hrs ho (runCst_selfSem k) w f hnd
+  | 0 => fun _ _ _ _ hI w f _ hnd => runCstBody_sem hrc hrs ho selfSem_fuel hI w f hnd
+  | k + 1 => fun _ _ _ _ hI w f _ hnd => runCstBody_sem hrc hrs ho (runCst_selfSem k) hI w f hnd
 
 /-- the loop of `run_constraints` over a snapshot: every stored constraint is taken out and re-run -/
-theorem runSnapshot_sem {st : State} {snap : List (Nat × Cst)} (ws : WFS st) (hi : Inv st) :
-    Ref (fun _ => True) st (runSnapshot rc ord st snap) := by
+theorem runSnapshot_sem {st : State} {snap : List (Nat × Cst)} (hI : IOK I st) (ws : WFS st) (hi : Inv st) :
+    Ref I (fun _ => True) st (runSnapshot rc ord st snap) := by
   unfold runSnapshot
   refine fold_ref (fun (cur : State) (p : Nat × Cst) =>
       match cur.takeConstraint p.1 with
       | (st', some c) => runCst rc ord 4 p.1 c st'
-      | (st', none) => .ok st') (fun cur p w hi => ?_) snap st ws hi
+      | (st', none) => .ok st') (fun cur p hIc w hi => ?_) snap st hI ws hi
   obtain ⟨ti, tn, ts, tf⟩ := take_step cur p.1 hi
   split
   · rename_i st1 c e
@@ -1392,7 +1485,7 @@ theorem runSnapshot_sem {st : State} {snap : List (Nat × Cst)} (ws : WFS st) (h
     rw [e1] at ti tn ts tf
     obtain ⟨hni, hlt⟩ := tf c e2
     have fr : Fr p.1 st1 := ⟨ti, by rw [tn]; exact hlt, hni⟩
-    obtain ⟨hσ, hd, hsem⟩ := take_sem hi e
+    obtain ⟨hσ, hd, hsem⟩ := take_sem (I := I) hi e
     have hm : (p.1, c) ∈ cur.store := take_some e2
     have hst1 : ∀ q ∈ st1.store, q ∈ cur.store := by
       have f4 := (take_fields cur p.1).2.2.2
@@ -1402,7 +1495,7 @@ theorem runSnapshot_sem {st : State} {snap : List (Nat × Cst)} (ws : WFS st) (h
     have k1 : Keeps cur st1 := Keeps.same w.solved hσ hd
     have hnd : c.isDistinct = false := w.nodist _ hm
     refine ⟨?_, fun cur' h => (runCst_selfOK hrc ord 4 _ _ _ _ fr h).inv⟩
-    have body := runCstBody_sem hrc hrs ho (runCst_selfSem hrc hrs ho 3) w1 fr hnd
+    have body := runCstBody_sem hrc hrs ho (runCst_selfSem hrc hrs ho 3) (hIc.same hσ) w1 fr hnd
     -- `runCst 4` is its body over `runCst 3`
     have : runCst rc ord 4 p.1 c st1 = runCstBody rc ord (runCst rc ord 3) p.1 c st1 := rfl
     rw [this]
@@ -1427,8 +1520,8 @@ end WithRC
 
 /-- `State::run_constraints`, at every nesting depth: the described valuations are kept exactly -/
 theorem runConstraintsF_sem {ord : Order} (ho : OrderOK ord) : ∀ n, RcSem (runConstraintsF ord n)
-  | 0 => fun _ _ _ => trivial
-  | n + 1 => fun _ w hi =>
-    runSnapshot_sem (runConstraintsF_ok ord n) (runConstraintsF_sem ho n) ho w hi
+  | 0 => fun _ _ _ _ _ => trivial
+  | n + 1 => fun _ _ hI w hi =>
+    runSnapshot_sem (runConstraintsF_ok ord n) (runConstraintsF_sem ho n) ho hI w hi
 
 end Pv
